@@ -17,7 +17,7 @@ pub fn prop() -> Prop {
         check,
         quick_runs: 16_000,
         both_profiles: false,
-        rule: "a run = a valid multi-aircraft stream with junk lines from the catalogue (empty, blank, text, hex of 13/15/27/29/41.. digits, bytes 0x80-0xFF, NUL, lone CR, >64 KiB, cut multi-byte sequences, truncated frames, parity-failing squitters, length/DF-mismatched frames, zero-address frames) inserted at random positions, delivered through a file or TCP connections with random read boundaries, executed twice: as is, and reduced to its accepted lines at identical processing times; non-trivial = at least one junk line and one accepted line were processed; distinct = distinct scripts",
+        rule: "a run = a valid multi-aircraft stream with junk lines from the catalogue (empty, blank, text, hex of 13/15/27/29/41.. digits, bytes 0x80-0xFF, NUL, lone CR, >64 KiB, cut multi-byte sequences, truncated frames, parity-failing squitters, length/DF-mismatched frames, zero-address frames) inserted at random positions, delivered through a file or TCP connections with random read boundaries, executed twice: as is, and reduced to its accepted lines at identical processing times; stalled peers: line tails arriving 10-40 s late, also a junk line whose late tail alone is a valid frame; non-trivial = at least one junk line and one accepted line were processed; distinct = distinct scripts",
         level_text: "seeded differential simulation: junk-laden stream vs its accepted subsequence under identical simulated clocks; oracle: identical tables (every field, time stamps included) after every accepted group and at the end, and the reader consumed the whole stream",
     }
 }
@@ -151,6 +151,23 @@ fn gen(rng: &mut Rng, _idx: u64, tier: Tier) -> Case {
     if rng.chance(0.3) {
         if let Some(Op::Data { bytes, .. }) = ops.last_mut() {
             if bytes.0.ends_with(b"\n") && bytes.0.len() > 1 { bytes.0.pop(); }
+        }
+    }
+    // a stalled peer: the first bytes of a junk line arrive, the rest - which on its own would be a perfectly
+    // valid frame of an aircraft nobody has heard of - follows 10 to 40 s later (longer than any sensible
+    // receive time-out)
+    if rng.chance(0.08) {
+        let spots: Vec<usize> = (0..=ops.len()).filter(|&i| i == 0 || matches!(&ops[i - 1], Op::Data { bytes, .. } if bytes.0.ends_with(b"\n"))).collect();
+        let at = *rng.pick(&spots);
+        let stranger_addr = (rng.bits(24) as u32) | 0x10;
+        let mut stranger = gen::aircraft(rng, stranger_addr);
+        let stranger_kind = *rng.pick(&[Kind::Ident, Kind::Df11, Kind::AirPos]);
+        let f = gen::frame(rng, &mut stranger, stranger_kind, true);
+        let hex = modes::to_hex(&f);
+        let prefix = *rng.pick(&["12", "00zz", "ABCDEF12", "xx 1", "8D"]);
+        if !kept(format!("{}{}", prefix, hex).as_bytes()) {
+            ops.insert(at, Op::Data { dt_us: rng.range(10_100_000, 40_000_000), bytes: Bytes(format!("{}\n", hex).into_bytes()), tag: "junk:late-tail-is-a-frame".into() });
+            ops.insert(at, Op::Data { dt_us: 0, bytes: Bytes(prefix.as_bytes().to_vec()), tag: "junk:stalled-line-head".into() });
         }
     }
     let tcp = rng.chance(0.4);
